@@ -297,10 +297,12 @@ def check(ctx):
                        f"no predecessor link, so an editor called on it never marks the receiver obsolete ({v!r})",
                        chain=[f"abstract value: {v!r}"], clause="derivation chain")
             elif m.name in ("__deepcopy__", "deepcopy"):
-                ok = not shared and "via-new" not in v.flags
+                shallow = v.elem is not None and "shallow" in v.elem.flags
+                ok = not shared and "via-new" not in v.flags and not shallow
                 ctx.ob("EFF-3", m, f"return value of {m.name}", m.node, ok,
                        "deep copy: fresh item dicts, no predecessor" if ok else
-                       f"deepcopy result still shares item dicts or records a predecessor ({v!r})",
+                       f"deepcopy result still shares item dicts (or their nested values: shallow copy) or records "
+                       f"a predecessor ({v!r})",
                        chain=[f"abstract value: {v!r}"], clause="deepcopy isolation")
     for name in ("__deepcopy__",):
         m = cls.methods.get(name)
